@@ -641,6 +641,22 @@ func TestC20(t *testing.T) {
 			run.Violation(id, r.Key, r.What, map[string]any{"call": call})
 		}
 	}
+	for i, call := range []string{"SendReliable", "Join"} {
+		id := "deaf-peer/" + call
+		if !run.Mine(i+1) || !run.Want(id) {
+			continue
+		}
+		run.Journal(id, "")
+		var res []*c01Result
+		err := Bubble(t, func() { res = runC20DeafPeer(run, run.Seed()*53+int64(i), call) })
+		if err != nil {
+			res = append(res, &c01Result{"C20/bubble", err.Error()})
+		}
+		run.Eval(1)
+		for _, r := range res {
+			run.Violation(id, r.Key, r.What, map[string]any{"call": call})
+		}
+	}
 	for i := 0; i < run.Pick(4, 24); i++ {
 		id := fmt.Sprintf("stalled-delegate/%d", i)
 		if !run.Mine(i) || !run.Want(id) {
@@ -653,6 +669,7 @@ func TestC20(t *testing.T) {
 		}
 	}
 	if !run.Replaying() {
+		run.Require("deaf-peer|SendReliable", "deaf-peer|Join")
 		run.Require("only-pushpull|peer=false", "only-pushpull|peer=true", "blackhole|health=0|hung=false", "blackhole|health=1|hung=true", "real-stalled-peer|Leave(300ms)", "last-standing|Leave|peers=1", "last-standing|UpdateNode|peers=1", "real-stalled-delegate|Shutdown")
 	}
 	nr := run.Pick(32, 4000)
